@@ -2,6 +2,7 @@
 Driver op for C18:  `aud <ignored> OLD NEW [EXPECT]`  →  `pass|fail <sorted finding kinds> spec=0|1`
 (`spec` = the independent catalogue `Breaking old new`; a program that is not `WF` prints
 `not-wf-old` / `not-wf-new` first). Program tokens: see harness/cc/audit_ast.go.
+`audn <ignored> OLD F1 … Fk [EXPECT]`  →  `exit=0` | `exit=1 first=<i>` (the command line loop).
 -/
 import FV.Model.Idl
 import FV.Model.Audit
@@ -41,7 +42,12 @@ def readSExp (s : String) : Option SExp :=
   | _ => none
 
 partial def tyOf : SExp → Option Ty
-  | .atom a => some (if baseTypeNames.contains a then .base a else .named a)
+  | .atom a =>
+    -- `Type.IncludeName` / `ParamName`: split at the first `.`
+    match a.splitOn "." with
+    | [_] => some (if baseTypeNames.contains a then .base a else .named a)
+    | i :: rest => some (.qual i (".".intercalate rest))
+    | [] => none
   | .node [.atom "l", e] => do pure (.list (← tyOf e))
   | .node [.atom "s", e] => do pure (.set (← tyOf e))
   | .node [.atom "m", k, v] => do pure (.map (← tyOf k) (← tyOf v))
@@ -71,7 +77,21 @@ def kindOf : String → Option StructKind
   | _ => none
 
 def progOf : SExp → Option Prog
-  | .node [tds, ens, sts, svs, scs, nss, cs] => do
+  | .node (tds :: ens :: sts :: svs :: scs :: nss :: cs :: more) => do
+    let includes ← (match more with
+      | [] => some []
+      | [incs] => do
+        (← items incs).mapM fun
+          | .node [.atom n, itds, .node names] => do
+            let typedefs ← (← items itds).mapM fun
+              | .node [.atom tn, t] => do pure (Typedef.mk tn (← tyOf t))
+              | _ => none
+            let decls ← names.mapM fun
+              | .atom d => some d
+              | _ => none
+            pure (IncFile.mk n typedefs decls)
+          | _ => none
+      | _ => none)
     let typedefs ← (← items tds).mapM fun
       | .node [.atom n, t] => do pure (Typedef.mk n (← tyOf t))
       | _ => none
@@ -117,7 +137,7 @@ def progOf : SExp → Option Prog
     let consts ← (← items cs).mapM fun
       | .node [.atom n, t, .atom v] => do pure (Const.mk n (← tyOf t) v)
       | _ => none
-    pure { typedefs, enums, structs, services, scopes, namespaces, consts }
+    pure { typedefs, enums, structs, services, scopes, namespaces, consts, includes }
   | _ => none
 
 def kindName : Kind → String
@@ -159,6 +179,16 @@ def stepAudit (op : String) (args : List String) : Option String :=
       let ks := if kinds.isEmpty then "-" else ",".intercalate kinds
       let sp := if FV.Breaking.breakingB old new then "1" else "0"
       pure s!"{v} {ks} spec={sp}"
+  | "audn", _ :: o :: rest => do
+    -- `frugal -audit OLD F1 … Fk` (arguments that are not program tokens are ignored)
+    let old ← (readSExp o).bind progOf
+    let files ← (rest.filter (·.startsWith "(")).mapM fun a => (readSExp a).bind progOf
+    if ¬ WF old ∨ files.any (fun f => ¬ WF f) then pure "not-wf"
+    else if cliAudit old files then
+      match cliFirstFailing old files with
+      | some k => pure s!"exit=1 first={k + 1}"
+      | none => pure "exit=1 first=?"
+    else pure "exit=0"
   | _, _ => none
 
 end Driver
